@@ -2,9 +2,9 @@
    not of its iteration order.  Theorems only. *)
 From Coq Require Import List NArith ZArith QArith Qcanon Permutation.
 From Okv Require Import Base.Maps Base.Dec Model.Amount Model.Book Model.Query Model.Render Model.OrderSpec
-     Model.PriceDb Model.PriceSpec
+     Model.PriceDb Model.PriceSpec Model.Convert
      Proofs.MapsSort Proofs.RenderProofs Proofs.OrderMaps Proofs.OrderAmount Proofs.OrderBook Proofs.OrderReports
-     Proofs.PriceTable Proofs.OrderPrice.
+     Proofs.PriceTable Proofs.OrderPrice Proofs.OrderConvert.
 From Okv Require Model.ImpConfig Model.ImpExtract Model.OrderImpSpec Proofs.OrderImport.
 Import ListNotations.
 
@@ -238,6 +238,94 @@ Theorem C13_convert_single_determined_unless_tied :
   convert_single fuel choose recs c v target date = convert_single fuel' choose' recs' c v target date.
 Proof. exact convert_single_determined. Qed.
 Print Assumptions C13_convert_single_determined_unless_tied.
+
+(* the repositories built from equivalent event lists (an implied exchange recorded as (x, y) or as
+   (y, x)) and the same price DB hold the same records *)
+Theorem C13_repository_order_independent : forall evs evs' db,
+  Forall2 ev_equiv evs evs' -> rec_equiv (repository evs db) (repository evs' db).
+Proof. exact repository_equiv. Qed.
+Print Assumptions C13_repository_order_independent.
+
+(* `balance -X` / `balance --historical -X` / date ranges (Ledger::balance, Model/Convert.v) when the
+   two sides convert single commodities alike: both fail, or both succeed with equivalent balances
+   (conv_rel).  Which missing rate a failure names is NOT determined: see the two _refuted theorems *)
+Theorem C13_balance_query_respects_equiv :
+  forall fuel fuel' choose choose' recs recs',
+  (forall c v target date,
+     convert_single fuel choose recs c v target date = convert_single fuel' choose' recs' c v target date) ->
+  forall s s' cv st en, st_equiv s s' ->
+  conv_rel bal_equiv (balance_query fuel choose recs s cv st en) (balance_query fuel' choose' recs' s' cv st en).
+Proof. exact balance_query_equiv. Qed.
+Print Assumptions C13_balance_query_respects_equiv.
+
+(* Ledger::eval with an exchange commodity *)
+Theorem C13_eval_exchange_respects_equiv :
+  forall fuel fuel' choose choose' recs recs',
+  (forall c v target date,
+     convert_single fuel choose recs c v target date = convert_single fuel' choose' recs' c v target date) ->
+  forall a a' exchange date, map_equiv a a' ->
+  conv_rel map_equiv (eval_exchange fuel choose recs a exchange date) (eval_exchange fuel' choose' recs' a' exchange date).
+Proof. exact eval_exchange_equiv. Qed.
+Print Assumptions C13_eval_exchange_respects_equiv.
+
+(* end to end: equivalent book-keeping states, each with the repository built from its own events,
+   any heap orders, sufficient fuel, no tied chains: the converted report succeeds in both or in
+   neither, and prints the same lines *)
+Theorem C13_balance_exchange_order_independent_unless_tied :
+  forall s s' db fuel fuel' choose choose' cv st en,
+  st_equiv s s' ->
+  (forall c target date, c <> target -> tie_free (repository (s_events s) db) date target c) ->
+  (forall target date, exists t, price_table fuel choose (repository (s_events s) db) target date = PTDone t) ->
+  (forall target date, exists t, price_table fuel' choose' (repository (s_events s') db) target date = PTDone t) ->
+  conv_rel bal_equiv (balance_query fuel choose (repository (s_events s) db) s cv st en)
+                     (balance_query fuel' choose' (repository (s_events s') db) s' cv st en).
+Proof. exact balance_exchange_equiv. Qed.
+Print Assumptions C13_balance_exchange_order_independent_unless_tied.
+
+Theorem C13_balance_exchange_stdout_order_independent_unless_tied :
+  forall s s' db fuel fuel' choose choose' cv st en b b',
+  st_equiv s s' ->
+  (forall c target date, c <> target -> tie_free (repository (s_events s) db) date target c) ->
+  (forall target date, exists t, price_table fuel choose (repository (s_events s) db) target date = PTDone t) ->
+  (forall target date, exists t, price_table fuel' choose' (repository (s_events s') db) target date = PTDone t) ->
+  balance_query fuel choose (repository (s_events s) db) s cv st en = COk b ->
+  balance_query fuel' choose' (repository (s_events s') db) s' cv st en = COk b' ->
+  render_balance b = render_balance b'.
+Proof. exact balance_exchange_stdout. Qed.
+Print Assumptions C13_balance_exchange_stdout_order_independent_unless_tied.
+
+(* REFUTED (finding F21, reproduced on the okane binary: `balance -X USD` over a ledger with several
+   accounts holding unconvertible commodities prints a different "commodity rate .. not found" from
+   run to run): Ledger::balance converts the accounts in HashMap order (query.rs
+   `for (account, original_amount) in balance.iter()`) and stops at the first failure, so the error
+   of convert_accounts is not a function of the balance's contents *)
+Theorem C13_convert_accounts_error_order_independent_refuted :
+  exists fuel choose recs target now b b',
+    bal_equiv b b' /\
+    convert_accounts fuel choose recs target now b [] <> convert_accounts fuel choose recs target now b' [].
+Proof. exact F21.convert_accounts_error_order_dependent. Qed.
+Print Assumptions C13_convert_accounts_error_order_independent_refuted.
+
+(* the same inside one amount (F20).  The code was repaired (/repo 170c38c converts in commodity
+   order); Model/PriceDb.v convert_amount still iterates in list order, so for the model the claim
+   is refuted; the repaired behaviour is `convert_amount` after `sort_keys`, below *)
+Theorem C13_convert_amount_error_order_independent_refuted_in_model :
+  exists fuel choose recs target date a a',
+    map_equiv a a' /\
+    convert_amount fuel choose recs a target date <> convert_amount fuel choose recs a' target date.
+Proof. exact F21.convert_amount_error_order_dependent. Qed.
+Print Assumptions C13_convert_amount_error_order_independent_refuted_in_model.
+
+(* iterating in key order makes both a function of the contents, errors included: what 170c38c does
+   for an amount, and what sorting the accounts in Ledger::balance would do for F21 *)
+Theorem C13_convert_in_key_order_deterministic : forall fuel choose recs,
+  (forall a a' target date, map_equiv a a' ->
+     convert_amount fuel choose recs (sort_keys a) target date = convert_amount fuel choose recs (sort_keys a') target date) /\
+  (forall b b' target now acc, bal_equiv b b' ->
+     convert_accounts fuel choose recs target now (canon_balance b) acc =
+     convert_accounts fuel choose recs target now (canon_balance b') acc).
+Proof. exact convert_sorted_deterministic. Qed.
+Print Assumptions C13_convert_in_key_order_deterministic.
 
 (* (5) import rules.  The entries of a FieldMatcher (a HashMap from field to pattern, so the fields
    are distinct) are applied in list order, each seeing the fragment left by the previous ones.  For
